@@ -111,7 +111,33 @@ def random_network(rng, max_nodes=8, max_branches=14, kinds=None, cplx=None, poo
         kind = rng.choices(kinds, weights=weights)[0] if weights else rng.choice(kinds)
         bid = ids[k] if ids else f'{kind}{k}'
         brs.append(mk_branch(rng, kind, bid, a, b, cplx, decimal))
-    return {'zero': rng.choice(nodes), 'branches': brs}
+    case = {'zero': rng.choice(nodes), 'branches': brs}
+    if rng.random() < 0.2:
+        rescale_impedances(case, rng.choice([1e3, 1e5, 1e7, 1e-3, 2.0 ** 20]))
+    return case
+
+
+def rescale_impedances(case, f):
+    """multiply every impedance by f and divide every admittance by f (voltages unchanged, currents / f): several decades of
+    impedance level — the determinant of the nodal matrix scales with f^-n, a solution must not"""
+    for b in case['branches']:
+        c, a = b['ctor'], b['args']
+        def mul(x, k):
+            return [x[0] * k, x[1] * k]
+        if c in ('resistor', 'impedance'):
+            a[0] = mul(a[0], f)
+        elif c in ('conductor', 'admittance'):
+            a[0] = mul(a[0], 1 / f)
+        elif c == 'voltage_source':
+            a[1] = mul(a[1], f)
+        elif c == 'current_source':
+            a[0] = mul(a[0], 1 / f)
+            a[1] = mul(a[1], 1 / f)
+        elif c == 'load_v':
+            a[0] = mul(a[0], 1 / f)
+        elif c == 'load_i':
+            a[0] = mul(a[0], f)
+    return case
 
 
 def small_exhaustive(max_nodes=3, max_branches=3, kinds=('R', 'G', 'V', 'I', 'LV', 'LI', 'load', 'Z', 'Y')):
